@@ -38,6 +38,8 @@ ASSUMPTIONS = [
     'exercised by every real-subprocess sequence, not modelled',
     'the reference (in-process API) runs in a separate worker process with the same sys.path / sys.modules / cwd / '
     'environment as the server, because assist() lists sys.modules and sys.path of the running process',
+    'a request that raises in-process leaves the in-process state unchanged (hypothesis raise_pure of C15_raising_request_isolated): '
+    'checked without the reference by the isolation evaluator (same sequence with and without the failing request, both on real servers)',
     'location() alternatives are compared as multisets (order of alternatives is C17 / defect F4, not C15)',
 ]
 
@@ -675,6 +677,9 @@ FILES = {
     'pkg/__init__.py': 'from .sub import C\nVERSION = (1, 2)\n',
     'pkg/sub.py': 'from mod1 import Base\n\nclass C(Base):\n    attr = 1\n    def method(self):\n        return self\n\ndef helper(a, b=1):\n    return a\n',
     'pkg/other.py': 'import mod1\nvalue = mod1.foo()\n',
+    # a second source root whose answers differ from the first one's
+    'alt/mod1.py': '\n\nbeta_one = 1\n\ndef foo():\n    return 2\n',
+    'alt/altonly.py': 'gamma = 1\n',
 }
 EDITS = [
     ('mod1.py', 'import os\n\ndef foo():\n    return 1\n\ndef fresh_name():\n    pass\n\nbar = 2\n\nclass Base(object):\n    def base_meth(self):\n        pass\n    def added(self):\n        pass\n'),
@@ -707,6 +712,21 @@ CONFIGURE_OK = [
     [{'sources': [{'$path': ''}]}], [{'sources': [{'$path': ''}, {'$path': 'pkg'}]}],
     [{'sources': [{'$path': ''}], 'dyn_modules': None}], [{'sources': [{'$path': ''}], 'extra': {'$tuple': [1, 2]}}],
 ]
+
+CONFIGURE_ALT = [{'sources': [{'$path': 'alt'}]}]
+ROOTS = [[{'$path': ''}], [{'$path': 'alt'}], [{'$path': 'alt'}, {'$path': ''}]]
+# configure requests with PARTIALLY valid configs: whatever they do, a configure that raises must
+# leave the previously configured project in place (sources valid, dyn_modules malformed, ...)
+BAD_DYN = [[['m']], 5, [{}], [['mod1'], 'x'], {'$tuple': [[1]]}, True, [None, []], 1.5]
+FAIL_CONFIGURE = ([['configure', [{'sources': r, 'dyn_modules': d}], {}] for r in ROOTS[:2] for d in BAD_DYN] +
+                  [['configure', [{'dyn_modules': ['mod1']}], {}], ['configure', [{'source': ROOTS[1]}], {}],
+                   ['configure', [ROOTS[1]], {}], ['configure', [{'sources': ROOTS[1]}, 1], {}],
+                   ['configure', [], {'config': {'sources': ROOTS[1]}, 'x': 1}], ['configure', ['alt'], {}],
+                   ['configure', [{'sources': ROOTS[1], 'dyn_modules': [['m']]}], {'extra': 1}]])
+# wrong TYPE of sources: accepted by Project.__init__ on the pinned tree (they return None and break or
+# replace the project, as in-process); part of the alphabet, not "failing" requests
+ODD_CONFIGURE = [['configure', [{'sources': 5}], {}], ['configure', [{'sources': None}], {}], ['configure', [{'sources': 'alt'}], {}],
+                 ['configure', [{'sources': []}], {}]]
 
 X = {'$path': 'x.py'}
 
@@ -749,7 +769,9 @@ def g_valid(rng, bulkspec=None):
                 return ['eval', ['return "a" * %d' % n], {}], 'eval-bigreply'
             return ['eval', [{'$bulk': ['comment', n, 'return 7']}], {}], 'eval'
         return ['eval', [rng.choice(EVAL_OK)], {}], 'eval'
-    return ['configure', rng.choice(CONFIGURE_OK), {}], 'configure'
+    if rng.random() < 0.15:
+        return list(rng.choice(ODD_CONFIGURE)), 'configure-odd'
+    return ['configure', rng.choice(CONFIGURE_OK + CONFIGURE_ALT * 3), {}], 'configure'
 
 
 FAIL_UNKNOWN = [
@@ -783,6 +805,7 @@ FATAL = [
     ['close', [1], {'a': 2}],
 ]
 FAIL_KINDS = [('unknown', FAIL_UNKNOWN), ('arity', FAIL_ARITY), ('raises', FAIL_RAISES), ('serialise', FAIL_SERIALISE),
+              ('configure', FAIL_CONFIGURE),
               ('local', FAIL_LOCAL)]
 
 
@@ -822,12 +845,32 @@ def gen_sequences(ctx):
     for b in range(nbase):
         n = rng.randint(4, ctx.pick(6, 10))
         steps, kinds = base_steps(rng, n)
-        seqs.append({'files': FILES, 'steps': steps, 'tag': 'base'})
+        seqs.append({'files': FILES, 'steps': steps, 'tag': 'base', 'id': 'base%d' % b})
         for i in range(n + 1):
             for kind, _pool in FAIL_KINDS:
                 f, _ = g_failing(rng, kind)
                 st = steps[:i] + [{'call': f}] + steps[i:]
-                seqs.append({'files': FILES, 'steps': st, 'tag': 'inject-%s@%d' % (kind, i)})
+                seqs.append({'files': FILES, 'steps': st, 'tag': 'inject-%s@%d' % (kind, i),
+                             'base': 'base%d' % b, 'inject_call': i})
+    # (a') a configure that raises between configures of DIFFERENT roots and queries whose answers
+    # tell the roots apart: the project in force must stay the one configured before
+    queries = [['assist', ['import mod1\nmod1.', {'$tuple': [2, 5]}, X], {}],
+               ['location', ['import mod1\nmod1.foo', {'$tuple': [2, 7]}, X], {}],
+               ['lint', ['import altonly\nfrom mod1 import bar\nprint(bar, altonly.gamma, nope)\n', X], {}],
+               ['assist', ['import ', {'$tuple': [1, 7]}, X], {}]]
+    for b, (ra, rb) in enumerate([(ROOTS[0], ROOTS[1]), (ROOTS[1], ROOTS[0])]):
+        steps = ([{'call': ['configure', [{'sources': ra}], {}]}] + [{'call': q} for q in queries] +
+                 [{'call': ['configure', [{'sources': rb}], {}]}] + [{'call': q} for q in queries[:3]])
+        bid = 'cfgbase%d' % b
+        seqs.append({'files': FILES, 'steps': steps, 'tag': 'base-configure', 'id': bid})
+        pool = FAIL_CONFIGURE
+        fs = pool if ctx.thorough() else rng.sample(pool, min(len(pool), 7))
+        for f in fs:
+            for i in (1, 3, 6, 8):
+                if not ctx.thorough() and rng.random() < 0.5:
+                    continue
+                st = steps[:i] + [{'call': f}] + steps[i:]
+                seqs.append({'files': FILES, 'steps': st, 'tag': 'inject-configure@%d' % i, 'base': bid, 'inject_call': i})
     # (b) random mixes: valid, failing, edits of project files, fatal requests at the end
     for j in range(ctx.pick(60, 900)):
         n = rng.randint(1, maxlen)
@@ -1103,6 +1146,85 @@ def summarise(ints):
     return ','.join(out)
 
 
+def t_subst(t, a, b):
+    k = t[0]
+    if k == 's':
+        return ('s', t[1].replace(a, b))
+    if k in 'LT':
+        return (k, [t_subst(x, a, b) for x in t[1]])
+    if k == 'D':
+        return ('D', [(t_subst(x, a, b), t_subst(y, a, b)) for x, y in t[1]])
+    return t
+
+
+def rel_obs(o, proj):
+    """an observation with the sequence's own project directory abstracted (file paths in location
+    results and messages), so that two replays in different directories can be compared"""
+    if o[0] == 'returned':
+        return ('returned', t_subst(o[1], proj, '<proj>'))
+    if o[0] == 'raised':
+        return ('raised', o[1].replace(proj, '<proj>'))
+    return o
+
+
+def isolation_diff(seq, res, bres, proj, bproj):
+    """Failure isolation, evaluated WITHOUT the in-process reference: a request reported to the caller as
+    an exception must leave every other reply as it is in the same sequence without that request.
+    Returns None (agree / not applicable) or (index in the base sequence, expected, got)."""
+    j = seq['inject_call']
+    if j >= len(res['obs_canon']) or res['obs_canon'][j][0] not in ('raised', 'local'):
+        return None
+    got = [rel_obs(o, proj) for k, o in enumerate(res['obs_canon']) if k != j]
+    exp = [rel_obs(o, bproj) for o in bres['obs_canon']]
+    for k in range(max(len(got), len(exp))):
+        g = got[k] if k < len(got) else None
+        e = exp[k] if k < len(exp) else None
+        if g != e:
+            return (k, e, g)
+    return None
+
+
+def check_isolation(ctx, seqs, results):
+    by_id = {q['id']: i for i, q in enumerate(seqs) if 'id' in q}
+    n = 0
+    for i, seq in enumerate(seqs):
+        if 'base' not in seq or seq['base'] not in by_id:
+            continue
+        bi = by_id[seq['base']]
+        res, bres = results[i], results[bi]
+        if any(('error' in r or 'skipped' in r or r.get('mism') or r.get('timed_out')) for r in (res, bres)):
+            continue            # already reported by the direct evaluator
+        proj = os.path.join(ctx.scratch, 'seq%d' % i, 'proj')
+        bproj = os.path.join(ctx.scratch, 'seq%d' % bi, 'proj')
+        j = seq['inject_call']
+        if j < len(res['obs_canon']) and res['obs_canon'][j][0] not in ('raised', 'local'):
+            ctx.histogram('isolation_pairs', 'injected request did not fail (not applicable)')
+            continue
+        ctx.histogram('isolation_pairs', seq['tag'].split('@')[0])
+        d = isolation_diff(seq, res, bres, proj, bproj)
+        if d is None:
+            continue
+        # confirm in fresh processes (an answer that differs from process to process is C17's subject)
+        ctx._c15_n = getattr(ctx, '_c15_n', 0) + 1
+        w1 = os.path.join(ctx.scratch, 'iso%da' % ctx._c15_n)
+        w2 = os.path.join(ctx.scratch, 'iso%db' % ctx._c15_n)
+        r1 = run_sequence(seq, w1, 300)
+        r2 = run_sequence(seqs[bi], w2, 300)
+        d2 = isolation_diff(seq, r1, r2, os.path.join(w1, 'proj'), os.path.join(w2, 'proj'))
+        if d2 is None or d2[0] != d[0]:
+            ctx.notes.append('isolation difference on sequence %d not reproduced in fresh processes (process-dependent answer)' % i)
+            continue
+        n += 1
+        if n <= 5:
+            k, e, g = d
+            f = res['calls'][j]
+            ctx.violation('failing request %s (reported to the caller as %s) inserted at index %d of a sequence changes the reply '
+                          'to a later request: reply %d of the sequence without it is %s, with it %s'
+                          % (short(f, 160), short(res['obs_canon'][j], 120), j, k, short(e, 200), short(g, 200)),
+                          {'kind': 'isolation', 'sequence': strip(seq), 'base': strip(seqs[bi]), 'inject_call': j})
+    return n
+
+
 def seq_mode(seq):
     st = seq['steps']
     if len(st) == 1 and 'pipe' in st[0]:
@@ -1115,7 +1237,7 @@ def seq_mode(seq):
 def failure_kind(c):
     for kind, pool in FAIL_KINDS + [('fatal', FATAL)]:
         if c in pool:
-            return kind
+            return 'failing-configure' if kind == 'configure' else kind
     return None
 
 
@@ -1240,6 +1362,7 @@ def _run(ctx):
         else:
             sync_terms.append(term)
             sync_idx.append(i)
+    cov['isolation_disagreements'] = check_isolation(ctx, seqs, results)
     cov['sweep_reply_lengths'] = {k: summarise(v) for k, v in sorted(sweep_lengths.items())}
     cov['max_request_bytes'] = maxsize
     cov['slowest_call_s'] = round(slowest, 2)
@@ -1289,6 +1412,9 @@ def _run(ctx):
 
 def strip(seq):
     s = {'steps': seq['steps'], 'tag': seq.get('tag')}
+    for k in ('id', 'base', 'inject_call'):
+        if k in seq:
+            s[k] = seq[k]
     if seq.get('files') is not FILES and seq.get('files') != FILES:
         s['files'] = seq['files']
     return s
@@ -1301,6 +1427,22 @@ def replay(ctx, obj):
         print(obj.get('what'))
         return 1
     seq.setdefault('files', FILES)
+    if r.get('kind') == 'isolation':
+        base = r['base']
+        base.setdefault('files', FILES)
+        seq['inject_call'] = r['inject_call']
+        try:
+            w1, w2 = os.path.join(ctx.scratch, 'replay_a'), os.path.join(ctx.scratch, 'replay_b')
+            r1, r2 = run_sequence(seq, w1, 600), run_sequence(base, w2, 600)
+        finally:
+            import shutil
+            if _WRAPPER:
+                shutil.rmtree(os.path.dirname(_WRAPPER.pop()), ignore_errors=True)
+        d = isolation_diff(seq, r1, r2, os.path.join(w1, 'proj'), os.path.join(w2, 'proj'))
+        print('with the failing request   :', [short(o, 90) for o in r1['obs_canon']])
+        print('without the failing request:', [short(o, 90) for o in r2['obs_canon']])
+        print('ISOLATION DIFFERENCE' if d else 'isolated', d if d else '')
+        return 1 if d or r1['mism'] or r2['mism'] else 0
     try:
         res = run_sequence(seq, os.path.join(ctx.scratch, 'replay'), 600)
     finally:
